@@ -405,3 +405,15 @@ func Parallel(n, workers int, fn func(i int)) {
 	}
 	wg.Wait()
 }
+
+// TooMany reports that enough violations were recorded; workloads may stop
+// early (each further failing case can cost a watchdog period).
+func (r *Run) TooMany() bool {
+	r.mu.Lock()
+	defer r.mu.Unlock()
+	n := 0
+	for _, c := range r.vkeys {
+		n += c
+	}
+	return n >= 25
+}
